@@ -1,8 +1,8 @@
 #!/bin/bash
 # tools/verify_seed.sh C01 1 : confirm an agent's seeded change in its scratch worktree:
 # suite still passes (429), demo exits 1 with the changed binary and 0 with the unchanged one.
-id=$1; k=$2
-wt=/tmp/seed_$id; out=/tmp/seed_${id}_out; td=/tmp/seed_${id}_target
+id=$1; k=$2; pfx=${SEEDPFX:-seed}
+wt=/tmp/${pfx}_$id; out=/tmp/${pfx}_${id}_out; td=/tmp/${pfx}_${id}_target
 cd $wt || exit 2
 git checkout -q -- . ; git clean -qfd
 git apply $out/variant$k.diff || { echo "PATCH DOES NOT APPLY"; exit 2; }
